@@ -335,6 +335,28 @@ Definition emit (tl : tols) (st : part_st) (ge : bool * emission K) : part_st :=
     end
   else st.
 
+(** the terms handed to the two term lists by compute, in order (guards applied) *)
+Definition part_emissions (g : nat) (tl : tols) (p : part_in) : outcome (list (emission K)) :=
+  bind (part_visits g p) (fun vs =>
+  Done (map (fun ge : bool * emission K => snd ge) (filter (fun ge : bool * emission K => fst ge) (concat (map (visit_emissions tl p) vs))))).
+
+(** The separation hypothesis of ChiProofs.chi_termlist_no_loss as a boolean (used by the correspondence check to know
+    on which inputs the term lists are guaranteed to behave like a set ordered by a strict weak order):
+    within one term list and one value of the flag, for each of the three pole positions, any two pole values are
+    either at most tol/4 or at least 2 tol apart. *)
+Definition sep_pair (tol x y : K) : bool :=
+  let d := kabs (ksub x y) in negb (ltb (kdiv tol (ofZ 4)) d) || negb (ltb d (kmul (ofZ 2) tol)).
+Definition separated_b (tol : K) (vals : list K) : bool := forallb (fun x => forallb (sep_pair tol x) vals) vals.
+Definition em_poles (res flag : bool) (k : nat) (e : emission K) : list K :=
+  match e with
+  | EmitNonRes _ _ p1 p2 p3 f => if negb res && Bool.eqb f flag then [nth k [p1; p2; p3] 0] else []
+  | EmitRes _ _ _ p1 p2 p3 f => if res && Bool.eqb f flag then [nth k [p1; p2; p3] 0] else []
+  end.
+Definition emissions_separated_b (tl : tols) (es : list (emission K)) : bool :=
+  forallb (fun res : bool => forallb (fun flag : bool => forallb (fun k : nat =>
+     separated_b (if res then t_cmp_r tl else t_cmp_nr tl) (flat_map (em_poles res flag k) es))
+     [O; S O; S (S O)]) [false; true]) [false; true].
+
 (** TwoParticleGFPart::compute (cpp:90-173) *)
 Definition part_compute (g : nat) (tl : tols) (p : part_in) : outcome part_st :=
   bind (part_visits g p) (fun vs =>
